@@ -33,6 +33,16 @@ CLAIMED = {
             "symbolic severities and flags (z3 over all paths of the compiled async state machine); structural obligations on filter-before-scan, written list == scanned list, one task per file.",
             "Awaits complete (poll returns Ready); Vec::retain / slice iteration follow their std contracts; report writers' contents, scheduling and >2x2 sequences are outside.",
             "DESIGN.md §2 C36"),
+    "C09": ("MIR-to-SMT symbolic execution (z3) of DbIndex::clear, every index type's clear/remove, EmmyLuaAnalysis::reindex and LuaCompilation::clear_index (frame conditions); native replay by comparing a history + reindex with a fresh analysis",
+            "Claimed for the frame conditions only: on every path every index field receives its own clear(); every field an index's remove(file) mutates and that the index ever enumerates is mutated on "
+            "every path of its clear(); reindex clears before it rebuilds from the VFS's full file list.",
+            "What each index does inside a touched field and the analyzers that repopulate the index are outside; observable equality with a fresh analysis is only sampled by the replay histories.",
+            "DESIGN.md §2 C09/C10"),
+    "C10": ("MIR-to-SMT symbolic execution (z3) of DbIndex::remove / remove_index, EmmyLuaAnalysis::remove_file_by_uri and LuaCompilation::remove_index (frame conditions); native replay by comparing a removal history with a fresh analysis",
+            "Claimed for the frame conditions only: on every path every index field is told to remove exactly the removed file's id; remove_index visits every id; remove_file_by_uri removes from the VFS and "
+            "requests index removal for that same id.",
+            "What each index's remove(file) leaves inside its maps, memory release and LSP-level results are outside.",
+            "DESIGN.md §2 C09/C10"),
     "C19": ("MIR-to-SMT symbolic execution (z3/cvc5) of the three suppression-comment analyzers composed with the real DiagnosticAction::is_match over a symbolic line table; native replay through VirtualWorkspace",
             "The real MIR of analyze_diagnostic_disable{,_line,_next_line}, DiagnosticAction::is_match and is_file_diagnostic_code_disabled is executed symbolically; line starts, comment/block/"
             "diagnostic ranges and codes are z3 variables, and the statement's clauses (covers its scope, nothing outside it, only listed codes) are discharged for all of them.",
@@ -107,7 +117,7 @@ def main():
         "engines": [
             {"name": "K", "path": "/verif/lib/kanirun.py", "serves_properties": ["C01", "C02", "C21", "C22", "C23", "C36"],
              "kind_free_text": "Kani 0.68 proof harnesses (/verif/kani/*) over the real crates, CBMC 6.11 + cadical, unwinding assertions on, native replay"},
-            {"name": "M", "path": "/verif/mirsmt", "serves_properties": ["C01", "C02", "C19", "C20", "C21", "C24", "C31", "C36"],
+            {"name": "M", "path": "/verif/mirsmt", "serves_properties": ["C01", "C02", "C09", "C10", "C19", "C20", "C21", "C24", "C31", "C36"],
              "kind_free_text": "symbolic execution of rustc's MIR of the real functions into SMT (z3, cross-checked with cvc5)"},
         ],
         "checks": checks,
